@@ -18,6 +18,12 @@ sys.dont_write_bytecode = True
 sys.path.insert(0, HERE)
 sys.path.insert(0, os.environ.get('VERIF_REPO', '/repo'))
 
+import faulthandler   # noqa: E402
+import signal         # noqa: E402
+
+faulthandler.enable()
+faulthandler.register(signal.SIGUSR1, all_threads=True)
+
 from simkit import runner   # noqa: E402
 
 if __name__ == '__main__':
